@@ -15,7 +15,8 @@ CLASS = {
     'variable_observers': ('persist', 'must survive reset; writers: observe/remove'),
     'on_error': ('persist', 'must survive reset; writer: set_error_handler'),
     'allow_external_function_fallbacks': ('persist', 'must survive reset; writer: its setter'),
-    'has_validated_externals': ('persist', 'bindings stay validated; writer: validate_external_bindings'),
+    'has_validated_externals': ('persist', 'bindings stay validated across reset; writers: validate_external_bindings, and '
+                                'the two functions that change what validation depends on (they clear it: C09.binding-validation-is-a-cache)'),
     'state_snapshot_at_last_new_line': ('neutral', 'None at every host-call boundary outside an unfinished async continue'),
     'async_continue_active': ('neutral', 'false at every boundary where reset_state is allowed (async guard)'),
     'recursive_continue_count': ('neutral', '0 at every host-call boundary (paired)'),
@@ -29,7 +30,8 @@ ALLOWED_WRITERS = {
     'variable_observers': {'Story::new', 'Story::observe_variable', 'Story::remove_variable_observer'},
     'on_error': {'Story::new', 'Story::set_error_handler'},
     'allow_external_function_fallbacks': {'Story::new', 'Story::set_allow_external_function_fallbacks'},
-    'has_validated_externals': {'Story::new', 'Story::validate_external_bindings'},
+    'has_validated_externals': {'Story::new', 'Story::validate_external_bindings', 'Story::unbind_external_function',
+                                'Story::set_allow_external_function_fallbacks'},
     'temporary_evaluation_container': {'Story::new'},
     'async_saving': {'Story::new'},
 }
